@@ -14,10 +14,12 @@ def futex_syscall_ops(prog, fnpath):
     out = []
     if ctx is None:
         return out
-    nr = prog.const("sc::nr::FUTEX") or 202
+    nr = prog.const("sc::platform::nr::FUTEX")
+    if nr is None:
+        return out
     for bb, t in ctx.cfg.calls(lambda t: is_raw_syscall(t.get("callee"))):
         args = ctx.args(bb)
-        if args and fold(args[0]) == 202:
+        if args and fold(args[0]) == nr:
             out.append((ctx, bb, args[2] if len(args) > 2 else None))
     return out
 
